@@ -300,7 +300,8 @@ class Gen:
                 "print(parts%d.len()); print(parts%d[0]);" % (n, n),
                 "print(s%d.replace(\"1\", \"<one>\").find(\"<one>\"));" % n,
                 "var cs%d = 0; for c in s%d { if c.is_digit() { cs%d += 1; } } print(cs%d);" % (n, n, n, n),
-                "print(\"${s%d.starts_with(\"a\")} ${[1, (2, \"t\"), {\"k\": nil}]} ${1 / 3} ${1e21} ${0.1 + 0.2}\");" % n]
+                "var sw%d = s%d.starts_with(\"a\"); var mix%d = [1, (2, \"t\"), {\"k\": nil}];" % (n, n, n),
+                "print(\"${sw%d} ${mix%d} ${1 / 3} ${1e21} ${0.1 + 0.2}\");" % (n, n)]
 
     # --- maps
     def maps(self):
@@ -340,7 +341,7 @@ class Gen:
     def alloc(self):
         r = self.rng
         n = self.n = self.n + 1
-        k = r.choice([400, 800, 1500])
+        k = r.choice([300, 600, 1000])
         kind = r.choice(["vecs", "strings", "instances", "closures", "fibers", "maps"])
         keep = r.randint(2, 9)
         head = ["var keep%d = [];" % n]
